@@ -129,4 +129,51 @@ theorem last_scale_fits (sizes delays : List Nat) (e : Nat) (s d : Nat) (hm : (s
     (Int.negSucc 1000000) = need at *
   omega
 
+/-- per-axis relation the octant copy of the pyramid computation needs between the chunk-size
+    exponents of levels `L` and `L+1` (delay `d`): on a halved axis the old chunk is even and the
+    new chunk is half or all of it; on an axis not yet halved the new chunk is the old one or twice it -/
+def compatExp (L d oexp nexp : Nat) : Prop :=
+  if d ≤ L then 1 ≤ oexp ∧ (nexp + 1 = oexp ∨ nexp = oexp) else (nexp = oexp ∨ nexp = oexp + 1)
+
+theorem reduce_noop (afs : List Nat) (cap : Nat) (h : afs.sum ≤ cap) : reduce (afs.sum + 1) afs cap = afs := by
+  simp [reduce, h]
+
+theorem chunkExps_noreduce (a b c e L M : Nat) (hM : max (max a b) c = M)
+    (hs : (M - a - L) + ((M - b - L) + (M - c - L)) ≤ 3 * e) :
+    chunkExps [a, b, c] e L =
+      [e - ((M - a - L) + ((M - b - L) + (M - c - L)) + 1) / 3 + (M - a - L),
+       e - ((M - a - L) + ((M - b - L) + (M - c - L)) + 1) / 3 + (M - b - L),
+       e - ((M - a - L) + ((M - b - L) + (M - c - L)) + 1) / 3 + (M - c - L)] := by
+  unfold chunkExps
+  simp only
+  have hmax : [a, b, c].foldl max 0 = M := by simp [List.foldl, hM]
+  rw [hmax]
+  generalize ha : ([a, b, c].map fun d => M - d - L) = afs0
+  have hafs : afs0 = [M - a - L, M - b - L, M - c - L] := by rw [← ha]; rfl
+  have s0 : afs0.sum ≤ 3 * e := by
+    rw [hafs]; simp only [List.sum_cons, List.sum_nil]; omega
+  rw [reduce_noop _ _ s0, hafs]
+  simp only [List.map_cons, List.map_nil, List.sum_cons, List.sum_nil, Nat.add_zero]
+
+/-- PARTIAL (what is missing is known finding F21): when the axis delays take at most two values
+    (0 and one other), the target exponent is at least 1 and no anisotropy reduction is needed, the
+    chunk sizes of every pair of consecutive levels satisfy the relation the pyramid computation needs -/
+theorem compat3 (a b c e L : Nat) (he : 1 ≤ e)
+    (htwo : (a = 0 ∨ a = max (max a b) c) ∧ (b = 0 ∨ b = max (max a b) c) ∧ (c = 0 ∨ c = max (max a b) c))
+    (hsum : (max (max a b) c - a) + ((max (max a b) c - b) + (max (max a b) c - c)) ≤ 3 * e) :
+    ∃ o1 o2 o3 n1 n2 n3, chunkExps [a, b, c] e L = [o1, o2, o3] ∧ chunkExps [a, b, c] e (L + 1) = [n1, n2, n3] ∧
+      compatExp L a o1 n1 ∧ compatExp L b o2 n2 ∧ compatExp L c o3 n3 := by
+  generalize hM : max (max a b) c = M at *
+  have e0 := chunkExps_noreduce a b c e L M hM (by omega)
+  have e1 := chunkExps_noreduce a b c e (L + 1) M hM (by omega)
+  refine ⟨_, _, _, _, _, _, e0, e1, ?_⟩
+  clear e0 e1 hM
+  obtain ⟨ha, hb, hc⟩ := htwo
+  simp only [compatExp]
+  rcases ha with rfl | rfl <;> rcases hb with rfl | rfl <;> rcases hc with rfl | rfl <;>
+    simp only [Nat.sub_self, Nat.zero_sub, Nat.sub_zero, Nat.zero_add, Nat.add_zero, Nat.zero_le, if_true, Nat.reduceDiv] at hsum ⊢ <;>
+    (refine ⟨?_, ?_, ?_⟩ <;> (try split) <;>
+      first | omega | exact ⟨by omega, Or.inr trivial⟩ | exact Or.inl trivial)
+
+
 end NgVerif.Scales
